@@ -89,6 +89,19 @@ Section Simulator.
   Definition sub_shift (sh : option Q) (t : Q) : Q := match sh with None => t | Some x => t - x end.
   Definition add_shift (sh : option Q) (t : Q) : Q := match sh with None => t | Some x => t + x end.
 
+  (** the right-hand side [_initialise_integrator] hands to the integrator.  The integrator restarts at
+      ITS time 0 after an override; the repaired code wraps the model so that it still sees absolute
+      time ([rhs = lambda t, y: self.model(t + t_shift, y)], the same for the Jacobian), the unrepaired
+      code passes the model itself (which then sees the shifted time).  [_time_shift] only changes
+      together with a re-initialisation of the integrator (update_variables, clear_results), so the
+      shift captured by the wrapper IS the current [s_shift]. *)
+  Definition mflow (s : sim) : P -> Q -> Y -> Q -> Y :=
+    if f_abs_time fx then fun p t y d => flow p (add_shift (s_shift s) t) y d else flow.
+  Definition mok (s : sim) : P -> Q -> Y -> Q -> bool :=
+    if f_abs_time fx
+    then fun p t y t1 => solve_ok p (add_shift (s_shift s) t) y (add_shift (s_shift s) t1)
+    else solve_ok.
+
   (** [_handle_simulation_results] for a returned [Result] (raises are handled by the callers) *)
   Definition handle_results (s : sim) (r : ires Y) (skipfirst : bool) : sim :=
     match r with
@@ -132,7 +145,7 @@ Section Simulator.
          | Some pr =>
              let ab := framed (f_sim_frame fx) (s_shift s) t_end pr in
              if cmpb (f_sim_cmp fx) (fst ab) (snd ab) then (s, RaisedValue)
-             else finish s (integrate Y P flow solve_ok (s_mp s) (s_int s) (sub_shift (s_shift s) t_end) steps)
+             else finish s (integrate Y P (mflow s) (mok s) (s_mp s) (s_int s) (sub_shift (s_shift s) t_end) steps)
                          (f_skip_sim fx)
          end.
 
@@ -158,14 +171,14 @@ Section Simulator.
                      | FrameMixed =>
                          filter (fun t => cmpb (f_tc_keep fx) t pr) (map (sub_shift sh) pts)
                      end in
-                   finish s (integrate_time_course Y P flow solve_ok (s_mp s) (s_int s) rel) (f_skip_tc fx)
+                   finish s (integrate_time_course Y P (mflow s) (mok s) (s_mp s) (s_int s) rel) (f_skip_tc fx)
              end
          end.
 
   (** [simulate_to_steady_state] *)
   Definition simulate_to_steady_state (s : sim) : sim * outcome :=
     if has_errors s then (s, Done)
-    else finish s (integrate_to_steady_state Y P flow conv fx (s_mp s) (s_int s)) (f_skip_ss fx).
+    else finish s (integrate_to_steady_state Y P (mflow s) conv fx (s_mp s) (s_int s)) (f_skip_ss fx).
 
   (** index of the accumulated result ([pd.concat(raw_variables).index]) *)
   Definition seg_index (sg : segment) : list Q := map fst sg.
